@@ -90,12 +90,7 @@ pub proof fn lemma_chain_frame(kw: HeapW, kw2: HeapW, head: nat, s: Seq<nat>, b:
     ensures chain_ok(kw2, head, s, b, n)
 {
     lemma_chain_head(kw, head, s, b, n);
-    assert forall|i: int| 0 <= i < s.len() implies {
-        &&& #[trigger] is_key(kw2, s[i])
-        &&& s[i] != 0
-        &&& knext(kw2, s[i]) == nxt(s, i)
-        &&& bucket_of(kkey(kw2, s[i]), n) == b
-    } by {
+    assert forall|i: int| 0 <= i < s.len() implies #[trigger] chain_member_ok(kw2, s, b, n, i) by {
         lemma_chain_member(kw, head, s, b, n, i);
         assert(is_key(kw2, s[i]));
         assert(kw2.slots[s[i]] == kw.slots[s[i]]);
@@ -113,12 +108,7 @@ pub proof fn lemma_chain_push(kw: HeapW, head: nat, s: Seq<nat>, b: int, n: int,
 {
     let s2 = seq![ko] + s;
     lemma_chain_head(kw, head, s, b, n);
-    assert forall|i: int| 0 <= i < s2.len() implies {
-        &&& #[trigger] is_key(kw, s2[i])
-        &&& s2[i] != 0
-        &&& knext(kw, s2[i]) == nxt(s2, i)
-        &&& bucket_of(kkey(kw, s2[i]), n) == b
-    } by {
+    assert forall|i: int| 0 <= i < s2.len() implies #[trigger] chain_member_ok(kw, s2, b, n, i) by {
         if i > 0 {
             assert(s2[i] == s[i - 1]);
             lemma_chain_member(kw, head, s, b, n, i - 1);
@@ -148,12 +138,7 @@ pub proof fn lemma_chain_remove(kw: HeapW, kw2: HeapW, head: nat, s: Seq<nat>, b
     let s2 = rm(s, i);
     let head2 = if i == 0 { nxt(s, 0) } else { head };
     lemma_chain_head(kw, head, s, b, n);
-    assert forall|j: int| 0 <= j < s2.len() implies {
-        &&& #[trigger] is_key(kw2, s2[j])
-        &&& s2[j] != 0
-        &&& knext(kw2, s2[j]) == nxt(s2, j)
-        &&& bucket_of(kkey(kw2, s2[j]), n) == b
-    } by {
+    assert forall|j: int| 0 <= j < s2.len() implies #[trigger] chain_member_ok(kw2, s2, b, n, j) by {
         let j0 = if j < i { j } else { j + 1 };
         assert(s2[j] == s[j0]);
         if j + 1 < s2.len() { assert(s2[j + 1] == s[(if j + 1 < i { j + 1 } else { j + 2 })]); }
@@ -489,12 +474,7 @@ pub proof fn lemma_chain_same_links(kw: HeapW, kw2: HeapW, head: nat, s: Seq<nat
     ensures chain_ok(kw2, head, s, b, n)
 {
     lemma_chain_head(kw, head, s, b, n);
-    assert forall|i: int| 0 <= i < s.len() implies {
-        &&& #[trigger] is_key(kw2, s[i])
-        &&& s[i] != 0
-        &&& knext(kw2, s[i]) == nxt(s, i)
-        &&& bucket_of(kkey(kw2, s[i]), n) == b
-    } by {
+    assert forall|i: int| 0 <= i < s.len() implies #[trigger] chain_member_ok(kw2, s, b, n, i) by {
         lemma_chain_member(kw, head, s, b, n, i);
         if s[i] != ko {
             assert(kw.slots.dom().contains(s[i]) && !(kw.slots[s[i]].c is Free));
